@@ -167,13 +167,33 @@ func ExpPeer(s *stack.Stack, n *Node, inboundListener net.Listener) (*exppeer.Pe
 	if err := p.StartHeadersSync(); err != nil {
 		return nil, err
 	}
+	peerNodeMu.Lock()
+	peerNode[p] = n
+	peerNodeMu.Unlock()
 	return p, nil
 }
+
+var (
+	peerNodeMu sync.Mutex
+	peerNode   = map[*exppeer.Peer]*Node{}
+)
 
 // SafeDisconnect calls Disconnect once, guarding against the engine's non-idempotent close.
 func SafeDisconnect(p *exppeer.Peer) {
 	if p == nil {
 		return
+	}
+	// The experimental peer's Disconnect is not idempotent (open finding of C15): if the harness and the engine both call
+	// it, the second close panics - in the engine's own goroutine when the engine comes second, which would kill the test
+	// process. So the node side is closed first (no further message can make the engine disconnect by itself) and
+	// handlers already running get time to finish; a panic of the harness's own call (the engine was first) is recovered.
+	peerNodeMu.Lock()
+	n := peerNode[p]
+	delete(peerNode, p)
+	peerNodeMu.Unlock()
+	if n != nil {
+		n.DropAll()
+		time.Sleep(150 * time.Millisecond)
 	}
 	done := make(chan struct{})
 	go func() {
